@@ -34,7 +34,7 @@ THEOREMS = ["twosum", "fast_twosum", "twosum_fix_overflow", "fast2sum_fix_overfl
             "dekker_fix_checks", "lmax32", "lmax64", "dekker_fix_total_f32", "dekker_fix_total_f64",
             "utils_dekker_checks", "utils_dekker_total_f32", "utils_dekker_total_f64", "utils_square_total_f32", "utils_square_total_f64",
             "apmath_two_sum_total_f16", "apmath_quick_two_sum_total_f16", "alg_add_2sum_total_f16", "alg_add_2sum_fast_total_f16", "apmath_two_sum_total_f32", "apmath_quick_two_sum_total_f32", "alg_add_2sum_total_f32", "alg_add_2sum_fast_total_f32", "apmath_two_sum_total_f64", "apmath_quick_two_sum_total_f64", "alg_add_2sum_total_f64", "alg_add_2sum_fast_total_f64", "apmath_two_prod_total_f32", "alg_square_total_f32", "apmath_two_prod_total_f64", "alg_square_total_f64",
-            "utils_split_checks", "utils_split_total_f16", "alg_split_total_f16", "utils_split_total_f32", "alg_split_total_f32", "utils_split_total_f64", "alg_split_total_f64"]
+            "utils_split_checks", "utils_split_total_f16", "alg_split_total_f16", "utils_split_total_f32", "alg_split_total_f32", "utils_split_total_f64", "alg_split_total_f64", "apmath_split_total_f32", "apmath_split_total_f64"]
 SEARCHED = ["Veltkamp splitter x = xh + xl and half-significand bit bounds (all variants, scale on/off; subnormal inputs)",
             "Dekker product h + l = x*y (all variants; scale=True, fix_overflow, apmath two_prod/split, algorithms.py copies are search-only)", "fix_overflow fallbacks", "float64/float32/float16 machine arithmetic = round-to-nearest (Soft vs NumPy)"]
 TRUSTED = [
